@@ -295,6 +295,14 @@ class Poll(BasePoller):
             self._read_ctrl()
             return
 
+        if not isinstance(fd, int) and fd.fileno() != fileno:
+            # Closed without having been discarded; poll(2) goes by numbers
+            # and this one now belongs to somebody else's descriptor.
+            self._poller.unregister(fileno)
+            super().discard(fd)
+            del self._map[fileno]
+            return
+
         if event & self._disconnected_flag and not (event & select.POLLIN):
             self.fire(_disconnect(fd), self.getTarget(fd))
             self._poller.unregister(fileno)
